@@ -589,23 +589,27 @@ Fixpoint process_all (exec : N * N) (offers : list offer) (descs : list desc)
 
 Inductive outcome :=
 | Crash
-| Done (accepts : list (offer * list task)) (declined : list N) (abandoned : list N).
+| Done (accepts : list (offer * list task)) (declined : list N) (abandoned : list N)
+       (undeployed undeployable : list desc).
 
 (* resourceOffers: [offers] as received, [sched] the order in which the offer goroutines obtain
    descriptorsMu (a permutation of [offers]), [descs] the pending deployment request. *)
 Definition run_round (exec : N * N) (offers sched : list offer) (descs : list desc) : outcome :=
   let all_ids := map o_id offers in
   match descs with
-  | [] => Done [] all_ids []
+  | [] => Done [] all_ids [] [] []
   | _ =>
-    let pins := map (pin_of offers) descs in
-    if existsb is_pin_nowhere pins then Done [] all_ids []
-    else
-      let still := filter (fun d => is_pin_none (pin_of offers d)) descs in
+    let still := filter (fun d => is_pin_none (pin_of offers d)) descs in
+    (* the pre-processing loop runs from the last descriptor to the first *)
+    let nowhere := filter (fun d => is_pin_nowhere (pin_of offers d)) (rev descs) in
+    match nowhere with
+    | _ :: _ => Done [] all_ids [] still nowhere
+    | [] =>
       match process_all exec offers descs sched (mkGst still [] all_ids [] []) with
       | None => Crash
-      | Some g => Done (g_accepts g) (g_decline g) (g_aband g)
+      | Some g => Done (g_accepts g) (g_decline g) (g_aband g) (g_still g) (g_undep g)
       end
+    end
   end.
 
 (* ================================================================ correspondence cases *)
@@ -652,7 +656,8 @@ Record otask := mkOT {
 Inductive round_obs :=
 | RCrash
 | RDone (accepts : list (option (list otask)))   (* per offer, in offer order; None = no ACCEPT *)
-        (declined : list N).                     (* offer ids in offer order *)
+        (declined : list N)                      (* offer ids in offer order *)
+        (undeployed undeployable : list N).      (* descriptor indices, as the handler reports them *)
 
 Inductive c05_case :=
 | CSatisfy (a : attrs) (cts : list cstr) (obs : bool)
@@ -688,9 +693,10 @@ Fixpoint find_accept (oid : N) (acc : list (offer * list task)) : option (list t
 Definition obs_of (offers : list offer) (out : outcome) : round_obs :=
   match out with
   | Crash => RCrash
-  | Done acc dec _ =>
+  | Done acc dec _ still undep =>
     RDone (map (fun o => option_map (map otask_of) (find_accept (o_id o) acc)) offers)
           (filter (fun i => memN i dec) (map o_id offers))
+          (map d_id still) (map d_id undep)
   end.
 
 Definition pairN_eqb := pair_eqb N.eqb N.eqb.
@@ -701,8 +707,9 @@ Definition otask_eqb (a b : otask) : bool :=
 Definition robs_eqb (a b : round_obs) : bool :=
   match a, b with
   | RCrash, RCrash => true
-  | RDone x d, RDone y e =>
-    list_eqb (option_eqb (list_eqb otask_eqb)) x y && list_eqb N.eqb d e
+  | RDone x d u1 v1, RDone y e u2 v2 =>
+    list_eqb (option_eqb (list_eqb otask_eqb)) x y && list_eqb N.eqb d e &&
+    list_eqb N.eqb u1 u2 && list_eqb N.eqb v1 v2
   | _, _ => false
   end.
 
@@ -796,11 +803,16 @@ Definition opt_ports (pr : portres) : ranges := match pr with Some r => r | None
 
 Definition n_tcp (l : list chan) : N := Nlen (filter ch_tcp l).
 
-(* channels of a descriptor by the documented rule: the role's inbound channels, then those of
-   the class whose name is not taken *)
+(* channels of a descriptor: channels are identified by name; the role's inbound channels come
+   first, then those of the class; a name counts once (first occurrence) *)
+Fixpoint dedup_chans (seen : list N) (l : list chan) : list chan :=
+  match l with
+  | [] => []
+  | c :: r => if memN (ch_name c) seen then dedup_chans seen r
+              else c :: dedup_chans (ch_name c :: seen) r
+  end.
 Definition spec_chans (rd : rawdesc) (rk : rawclass) : list chan :=
-  rd_rbind rd ++ filter (fun c => negb (existsb (fun x => N.eqb (ch_name x) (ch_name c)) (rd_rbind rd)))
-                        (rk_bind rk).
+  dedup_chans [] (rd_rbind rd ++ rk_bind rk).
 
 (* per task on an offer *)
 Definition mon_task (o : offer) (rds : list rawdesc) (t : otask) : N :=
@@ -935,7 +947,7 @@ Definition group_by_agent (oxs : list (offer * option (list otask))) : list (lis
 Definition mon_round (offers : list offer) (rds : list rawdesc) (obs : round_obs) : N :=
   match obs with
   | RCrash => if crash_explicable offers rds then 20 else 21
-  | RDone acc declined =>
+  | RDone acc declined _ _ =>
     let oxs := zip3 offers acc in
     let per_task := flat_map (fun ox => map (mon_task (fst ox) rds) (tasks_of_obs (snd ox))) oxs in
     let per_agent := map (mon_agent_ports rds) (group_by_agent oxs) in
@@ -992,7 +1004,7 @@ Definition N_of_nat_cap (n : nat) (cap : N) : N := N.min (N.of_nat n) cap.
 Definition tag_round (offers : list offer) (rds : list rawdesc) (obs : round_obs) : N :=
   match obs with
   | RCrash => 799
-  | RDone acc declined =>
+  | RDone acc declined _ _ =>
     let launched := flat_map tasks_of_obs acc in
     let ds := descs_of rds in
     700 + b2n (match launched with [] => false | _ => true end)
